@@ -236,6 +236,14 @@ def check_node_defaults(rep, repo: Repo, pre: str = "", fields=None) -> None:
     for s in fi.node.body:
         if isinstance(s, ast.Assign) and len(s.targets) == 1 and unparse(s.targets[0]).startswith("self."):
             found[unparse(s.targets[0])[5:]] = unparse(s.value)
+    # defaults assigned in a private helper that __init__ calls unconditionally (`self._reset_forest_state()`)
+    w = Walker(repo, fi, self_class="Node", inline=lambda f: f.cls == "Node" and f.name.startswith("_")
+               and not f.name.startswith("__"))
+    for e in w.events:
+        if e.kind == "store" and not e.guards and not e.loops and not e.aug \
+                and e.target[0] == "attr" and e.target[1] == ("self",) and isinstance(e.stmt, ast.Assign) \
+                and len(e.stmt.targets) == 1 and not isinstance(e.stmt.targets[0], ast.Tuple):
+            found[e.target[2]] = unparse(e.stmt.value)
     for f, want in NODE_DEFAULTS.items():
         if fields is not None and f not in fields:
             continue
